@@ -204,20 +204,39 @@ func (s *handler) handleReader(ctx context.Context, r io.Reader, w io.Writer, rp
 			return
 		}
 
-		_, _ = w.Write([]byte("[")) // todo consider handling this error
-		for idx, req := range reqs {
-			if req.ID, err = normalizeID(req.ID); err != nil {
-				rpcError(wf, &req, rpcParseError, xerrors.Errorf("failed to parse ID: %w", err))
-				return
+		// Each element's response is buffered so that separators are only
+		// written between responses that exist: notifications produce none,
+		// and a batch consisting solely of notifications gets an empty reply.
+		wrote := false
+		for _, req := range reqs {
+			var elemBuf bytes.Buffer
+			elemWf := func(cb func(io.Writer)) {
+				cb(&elemBuf)
 			}
 
-			s.handle(ctx, req, wf, rpcError, func(bool) {}, nil)
+			if req.ID, err = normalizeID(req.ID); err != nil {
+				// the id could not be determined: answer this element with
+				// id null and carry on with the rest of the batch
+				req.ID = nil
+				rpcError(elemWf, &req, rpcParseError, xerrors.Errorf("failed to parse ID: %w", err))
+			} else {
+				s.handle(ctx, req, elemWf, rpcError, func(bool) {}, nil)
+			}
 
-			if idx != len(reqs)-1 {
+			if elemBuf.Len() == 0 {
+				continue
+			}
+			if !wrote {
+				_, _ = w.Write([]byte("[")) // todo consider handling this error
+				wrote = true
+			} else {
 				_, _ = w.Write([]byte(",")) // todo consider handling this error
 			}
+			_, _ = w.Write(elemBuf.Bytes()) // todo consider handling this error
 		}
-		_, _ = w.Write([]byte("]")) // todo consider handling this error
+		if wrote {
+			_, _ = w.Write([]byte("]")) // todo consider handling this error
+		}
 	} else {
 		var req request
 		if err := json.NewDecoder(bufferedRequest).Decode(&req); err != nil {
